@@ -5,6 +5,9 @@ V = "Claripy.VSA."
 THEOREMS_C21 = [P21 + n for n in ("C21_add_sound", "sdiv_unsound", "mul_unaligned_unsound")] + \
                [V + n for n in ("add_sound", "mem_new", "mem_top", "overflow_false", "cd_add", "wrappedCard_nat")]
 TESTS_C21 = [P21 + "test_add_example"]
-THEOREMS_C22 = [P22 + n for n in ("C22_top_mem", "C22_new_mem", "widen_unsound", "widen_wrap_unsound", "widen_offset_unsound",
-                                  "meet_unaligned_unsound", "max_unaligned_wrong")]
+THEOREMS_C22 = [P22 + n for n in ("C22_top_mem", "C22_new_mem", "C22_pseudo_join_sup", "C22_lub_sup", "C22_union_sup",
+                                  "widen_unsound", "widen_wrap_unsound", "widen_offset_unsound",
+                                  "meet_unaligned_unsound", "max_unaligned_wrong")] + \
+               [V + n for n in ("pseudoJoin_sup", "pseudoJoin_WF", "lub_sup", "union_sup", "contain_abs", "overlap_abs", "disjoint_abs",
+                                "isSurrounded_true", "isSurrounded_false", "reduceJoin_sup", "renorm_mem")]
 TESTS_C22 = [P22 + "test_join_example"]
